@@ -1,27 +1,126 @@
-"""IEEE-754 binary64 model (DESIGN §2.6): doubles as exact rationals (z3 Real), each rounding step
-introduces a fresh relative error bounded per binade.  Filled in for C17/C13."""
-import z3
+"""IEEE-754 binary64 model (DESIGN §2.6).  A double is its exact rational value (z3 Real).  Every operation that rounds
+introduces a fresh real r for the result with the per-binade half-ulp bound
+
+    2^e <= |x| < 2^(e+1)   =>   |r - x| <= 2^(e-53)          (round to nearest; ties irrelevant for a bound)
+
+over the binades e in a fixed window; x == 0 gives r == 0.  Values outside the window (|x| >= 2^BIN_HI or 0 < |x| <
+2^BIN_LO) make the operation unsupported on that path (checked).  Constants are exact: float literals are taken with
+their exact binary value (Fraction(literal)), not with their decimal spelling.  This is a sound over-approximation of
+round-to-nearest-even: `unsat` proves a claim for all doubles, `sat` is only a candidate (replayed natively)."""
 from fractions import Fraction
+import z3
+
 from .values import *
 from .ctx import Unsupported
 from . import ops
+from .ops import wrap_int, wrap_bool, int_term
+
+BIN_LO, BIN_HI = -80, 90
+
+
+def rv(fr):
+    fr = Fraction(fr)
+    return z3.RealVal(fr.numerator) / z3.RealVal(fr.denominator)
+
+
+def as_real(v):
+    """(term, exact Fraction or None) of a number"""
+    if isinstance(v, SFloat):
+        return v.t, None
+    if isinstance(v, bool):
+        return rv(int(v)), Fraction(int(v))
+    if isinstance(v, (int, float)):
+        return rv(Fraction(v)), Fraction(v)
+    if isinstance(v, (SInt, SBool)):
+        return z3.ToReal(int_term(v)), None
+    raise Unsupported('float operand %r' % (v,))
+
+
+def fl(ctx, x, what='fl'):
+    """the double nearest to the real term x"""
+    x = z3.simplify(x)
+    if z3.is_rational_value(x):
+        f = Fraction(x.numerator_as_long(), x.denominator_as_long())
+        return rv(Fraction(float(f)))          # exact: CPython rounds correctly
+    r = ctx.fresh_real(what)
+    ax = z3.If(x < 0, -x, x)
+    cases = [z3.And(x == 0, r == 0)]
+    for e in range(BIN_LO, BIN_HI):
+        lo, hi = rv(Fraction(2) ** e), rv(Fraction(2) ** (e + 1))
+        half_ulp = rv(Fraction(2) ** (e - 53))
+        cases.append(z3.And(ax >= lo, ax < hi, r - x <= half_ulp, x - r <= half_ulp))
+    # outside the window: not modelled
+    if ctx.check(z3.And(x != 0, z3.Or(ax >= rv(Fraction(2) ** BIN_HI), ax < rv(Fraction(2) ** BIN_LO)))) != z3.unsat:
+        raise Unsupported('floating-point value outside the modelled binade window [2^%d, 2^%d)' % (BIN_LO, BIN_HI))
+    ctx.fact(z3.Or(*cases))
+    ctx.float_roundings = getattr(ctx, 'float_roundings', 0) + 1
+    return r
+
+
+def _is_pow2(fr):
+    fr = Fraction(fr)
+    n, d = fr.numerator, fr.denominator
+    return (n & (n - 1) == 0 and d == 1) or (n == 1 and d & (d - 1) == 0)
 
 
 def binop(ip, op, a, b):
-    raise Unsupported('float arithmetic %s' % op)
+    ctx = ip.ctx
+    ta, ea = as_real(a)
+    tb, eb = as_real(b)
+    if op == 'Mult':
+        for e, other in ((ea, tb), (eb, ta)):
+            if e is not None and e != 0 and _is_pow2(abs(e)):
+                return SFloat(z3.simplify(other * rv(e)))     # scaling by a power of two is exact (no overflow in the window)
+        return SFloat(fl(ctx, ta * tb, 'fmul'))
+    if op == 'Add':
+        return SFloat(fl(ctx, ta + tb, 'fadd'))
+    if op == 'Sub':
+        return SFloat(fl(ctx, ta - tb, 'fsub'))
+    if op == 'Div':
+        if eb is not None:
+            if eb == 0:
+                ops.pyraise(ZeroDivisionError, 'float division by zero')
+            return SFloat(fl(ctx, ta / tb, 'fdiv'))
+        raise Unsupported('float division by a symbolic value')
+    raise Unsupported('float operator %s' % op)
 
 
 def div(ip, a, b):
-    raise Unsupported('true division')
+    """int / int (true division)"""
+    if isinstance(a, int) and isinstance(b, int):
+        return a / b
+    return binop(ip, 'Div', a, b)
+
+
+def from_int(ip, x):
+    return SFloat(fl(ip.ctx, z3.ToReal(int_term(x)), 'fint'))
+
+
+def from_decimal(ip, num, k):
+    """float('<num>e-<k>') for a symbolic integer numerator: the correctly rounded double of num / 10^k"""
+    return SFloat(fl(ip.ctx, z3.ToReal(int_term(num)) / rv(10 ** k), 'fstr'))
 
 
 def to_int(ip, x):
     raise Unsupported('int(float)')
 
 
-def from_int(ip, x):
-    raise Unsupported('float(int)')
-
-
 def round_(ip, args, kwargs):
-    raise Unsupported('round')
+    """round(x) with no digits: nearest integer, ties to even"""
+    ctx = ip.ctx
+    x = args[0]
+    if len(args) > 1 and args[1] is not None:
+        if not isinstance(x, Sym):
+            return round(*args)
+        raise Unsupported('round(x, ndigits) on a symbolic float')
+    if isinstance(x, (SInt, int)) and not isinstance(x, Sym):
+        return round(x)
+    if isinstance(x, SInt):
+        return x
+    t, _ = as_real(x)
+    r = ctx.fresh_int('round')
+    rr = z3.ToReal(r)
+    half = rv(Fraction(1, 2))
+    ctx.fact(z3.Or(z3.And(rr - half < t, t < rr + half),
+                   z3.And(z3.Or(t == rr + half, t == rr - half), r % 2 == 0)))
+    return SInt(r)
